@@ -403,8 +403,11 @@ func doForEachAsync(s *simrt.Sim, cl *asyncClient, c any, seq int, cold bool) {
 	id := uint64(cl.id)*1000 + uint64(seq)
 	call := &asyncCall{id: id, expected: map[uint64]int{}}
 	reentrant := s.Draw("cb-reentrant", 8) == 0
+	reenterAll := false
 	if reentrant {
 		cl.ops["probe:callback-calls-back-into-the-library"]++
+		// every callback calls back (all workers of a wide call inside nested asynchronous calls at the same time)
+		reenterAll = s.Draw("cb-reenter-all", 2) == 0
 	}
 	cb := func(slot uint64, v any) {
 		h := fnv(0, slot, digest(v))
@@ -420,7 +423,7 @@ func doForEachAsync(s *simrt.Sim, cl *asyncClient, c any, seq int, cold bool) {
 			// a callback that takes simulated time (a library that stops waiting after a while returns early)
 			simrt.Sleep([]time.Duration{time.Millisecond, 20 * time.Millisecond, 300 * time.Millisecond, 2 * time.Second, 4 * time.Second, 45 * time.Second}[s.Draw("cb-slow-d", 6)])
 		}
-		if reentrant && s.Draw("cb-reenter-now", 3) == 0 {
+		if reentrant && (reenterAll || s.Draw("cb-reenter-now", 3) == 0) {
 			reenter(s, c)
 		}
 		s.Log(tagCbEnd, id, h)
@@ -525,14 +528,17 @@ var pureFns = []pureFn{
 func doMapAsync(s *simrt.Sim, cl *asyncClient, c any, fn int, nm namer) {
 	pf := pureFns[fn]
 	reentrant := s.Draw("cb-reentrant", 8) == 0
+	reenterAll := false
 	if reentrant {
 		cl.ops["probe:callback-calls-back-into-the-library"]++
+		// every callback calls back (all workers of a wide call inside nested asynchronous calls at the same time)
+		reenterAll = s.Draw("cb-reenter-all", 2) == 0
 	}
 	yielding := func(slot string, i int, v any) any {
 		for y := s.Draw("cb-yield", 3); y > 0; y-- {
 			simrt.Yield()
 		}
-		if reentrant && len(slot)%3 == 0 {
+		if reentrant && (reenterAll || len(slot)%3 == 0) {
 			reenter(s, c)
 		}
 		return pf.f(slot, i, v)
@@ -1486,17 +1492,23 @@ func wideKeys(width int) []string {
 // container (a pure callback may read its container; nested async calls are read-only too).
 func reenter(s *simrt.Sim, c any) {
 	// only on small containers: n callbacks each starting n more goroutines is quadratic work for the harness itself
+	// On wide containers the callback works on a small container of its own instead (nested asynchronous calls from every
+	// worker of a wide call: linear work, and what a library-wide limit on workers has to survive).
+	wide := false
 	switch x := c.(type) {
 	case at.List:
 		if x.Count() > 12 {
-			return
+			wide, c = true, at.NewList(1, "two", 3.5)
 		}
 	case at.Object:
 		if x.Count() > 12 {
-			return
+			wide, c = true, at.NewObject("a", 1, "b", "two")
 		}
 	}
 	k := s.Draw("reenter-kind", 6)
+	if wide {
+		k = 3 + s.Draw("reenter-wide-kind", 2)
+	}
 	try(func() {
 		switch x := c.(type) {
 		case at.List:
